@@ -60,9 +60,11 @@ class BuildResult:
         self.ok, self.log, self.cmd = ok, log, cmd
 
 
-def _lock():
-    f = open(VERIF / ".buildlock", "w")
-    fcntl.flock(f, fcntl.LOCK_EX)
+def _lock(shared: bool = False):
+    """exclusive while Generated files are rewritten and lake builds; shared while oleans are only read
+    (audit, leanchecker, drivers), so concurrent checks never see half-built modules"""
+    f = open(VERIF / ".buildlock", "a")
+    fcntl.flock(f, fcntl.LOCK_SH if shared else fcntl.LOCK_EX)
     return f
 
 
@@ -74,10 +76,14 @@ def write_if_changed(path: Path, content: str) -> bool:
     return True
 
 
-def lake_build(targets: list[str], timeout: int = 1500) -> BuildResult:
+def lake_build(targets: list[str], timeout: int = 1500, extract=None) -> BuildResult:
+    """`extract` (optional callable) rewrites the Generated files; it runs under the same exclusive lock as the
+    build so that no other check builds or reads a half-updated tree"""
     cmd = ["lake", "build"] + targets
     lock = _lock()
     try:
+        if extract is not None:
+            extract()
         p = subprocess.run(cmd, cwd=LEAN, capture_output=True, text=True, timeout=timeout)
     finally:
         lock.close()
@@ -136,7 +142,11 @@ def audit(prop_id: str, modules: list[str]) -> dict:
     src = "".join(f"import {m}\n" for m in modules) + "".join(f"#print axioms {t}\n" for t in thms)
     f = LEAN / ".audit" / f"{prop_id}.lean"
     write_if_changed(f, src)
-    p = subprocess.run(["lake", "env", "lean", str(f)], cwd=LEAN, capture_output=True, text=True, timeout=900)
+    lk = _lock(shared=True)
+    try:
+        p = subprocess.run(["lake", "env", "lean", str(f)], cwd=LEAN, capture_output=True, text=True, timeout=900)
+    finally:
+        lk.close()
     out = p.stdout + p.stderr
     res = {}
     flat = re.sub(r"\s+", " ", out)
@@ -165,7 +175,11 @@ def audit(prop_id: str, modules: list[str]) -> dict:
 
 def leanchecker(modules: list[str]) -> BuildResult:
     cmd = ["lake", "env", "leanchecker"] + modules
-    p = subprocess.run(cmd, cwd=LEAN, capture_output=True, text=True, timeout=3000)
+    lk = _lock(shared=True)
+    try:
+        p = subprocess.run(cmd, cwd=LEAN, capture_output=True, text=True, timeout=3000)
+    finally:
+        lk.close()
     return BuildResult(p.returncode == 0, (p.stdout + p.stderr)[-3000:], "cd lean && " + " ".join(cmd))
 
 
@@ -174,9 +188,13 @@ def lean_batch(driver: str, lines: list[str], timeout: int = 1500) -> list[str]:
     if not lines:
         return []
     inp = "\n".join(lines) + "\n"
-    p = subprocess.run(
-        ["lake", "env", "lean", "--run", driver], cwd=LEAN, input=inp, capture_output=True, text=True, timeout=timeout
-    )
+    lk = _lock(shared=True)
+    try:
+        p = subprocess.run(
+            ["lake", "env", "lean", "--run", driver], cwd=LEAN, input=inp, capture_output=True, text=True, timeout=timeout
+        )
+    finally:
+        lk.close()
     if p.returncode != 0:
         raise DriverError(f"driver {driver} failed (rc={p.returncode}): {(p.stdout + p.stderr)[-3000:]}")
     out = p.stdout.split("\n")
